@@ -145,10 +145,10 @@ pub assume_specification [crate::vm::transform::Transform::keyword] (t: &crate::
 // (bodies outside what Verus ingests: closures capturing &mut self in compile_lambda, ...).  Only the frame is assumed:
 // they append to the bytecode.  Nothing is assumed about the tail flag.
 pub assume_specification [Vm::compile_quasiquote] (vm: &mut Vm, lambda: &mut Lambda, expr: &Cell, depth: usize) -> (r: Result<(), Error>)
-    ensures r is Ok ==> extends(*old(lambda), *final(lambda)), final(vm).regs() == old(vm).regs();
+    ensures r is Ok ==> extends(*old(lambda), *final(lambda)), final(vm).regs() == old(vm).regs() && final(vm).stack_spec() == old(vm).stack_spec();
 pub assume_specification [Vm::compile_set] (vm: &mut Vm, lambda: &mut Lambda, tail: bool, expr: &Cell) -> (r: Result<(), Error>)
-    ensures r is Ok ==> extends(*old(lambda), *final(lambda)), final(vm).regs() == old(vm).regs();
-pub assume_specification [Vm::compile_formal_arguments] (vm: &mut Vm, formal_args: &Cell) -> (r: Result<(Vec<VCell>, bool), Error>) ensures final(vm).regs() == old(vm).regs();
+    ensures r is Ok ==> extends(*old(lambda), *final(lambda)), final(vm).regs() == old(vm).regs() && final(vm).stack_spec() == old(vm).stack_spec();
+pub assume_specification [Vm::compile_formal_arguments] (vm: &mut Vm, formal_args: &Cell) -> (r: Result<(Vec<VCell>, bool), Error>) ensures final(vm).regs() == old(vm).regs() && final(vm).stack_spec() == old(vm).stack_spec();
 pub assume_specification<'a> [crate::vm::environment::free_symbols] (c: &'a Cell) -> (r: Result<std::collections::HashSet<&'a Cell>, Error>);
 pub assume_specification<'a> [crate::vm::environment::internally_defined_symbols] (c: &'a Cell) -> (r: Result<std::collections::HashSet<&'a Cell>, Error>);
 pub assume_specification [Lambda::new_from_iof] (args: Vec<VCell>, internally_defined: Vec<VCell>, iof: &Lambda, free_symbols: &[VCell], is_vararg: bool) -> (r: Lambda);
@@ -158,7 +158,7 @@ pub assume_specification [Lambda::set_desc] (l: &mut Lambda, c: Cell) ensures fi
 pub uninterp spec fn transformed(h: Heap, g: crate::vm::environment::GlobalEnvironment, e: Cell) -> Cell;
 pub open spec fn vm_transformed(vm: Vm, e: Cell) -> Cell { transformed(vm.heap_spec(), vm.globenv_spec(), e) }
 pub assume_specification [Vm::transform] (vm: &mut Vm, expr: &Cell) -> (r: Result<Cell, Error>)
-    ensures r matches Ok(c) ==> c == vm_transformed(*old(vm), *expr), final(vm).regs() == old(vm).regs();
+    ensures r matches Ok(c) ==> c == vm_transformed(*old(vm), *expr), final(vm).regs() == old(vm).regs() && final(vm).stack_spec() == old(vm).stack_spec();
 
 /// index form of `extends`
 pub proof fn lemma_extends_index(a: Lambda, b: Lambda, i: int) requires extends(a, b), 0 <= i < a.bc@.len() ensures b.bc@[i] == a.bc@[i] {
@@ -174,7 +174,7 @@ PRELUDE = PRELUDE.replace('PUT_MODEL_BODY', _b.PUT_MODEL_TEMPLATE.replace('DEREF
 NODEC = '#[verifier::exec_allows_no_decreases_clause]'
 EXT = (P, 'r is Ok ==> extends(*old(lambda), *final(lambda))')
 # the compiler does not touch the machine registers (eval moves the instruction pointer back after compiling)
-REGS = (P, 'final(self).regs() == old(self).regs()')
+REGS = (P + ['C07'], 'final(self).regs() == old(self).regs() && final(self).stack_spec() == old(self).stack_spec()')
 
 UNITS = [{
     # the two Lambda methods the compile contracts rest on, verified against their bodies
@@ -208,7 +208,7 @@ pub assume_specification [crate::vm::environment::EnvironmentMap::new] () -> (r:
         'impl Vm::compile_runtime_procedure_application': {
             'props': P, 'attrs': NODEC,
             'ensures': [REGS, EXT, (P, 'r is Ok ==> ends_in_call(*final(lambda), tail)')],
-            'loops': {0: 'invariant self.regs() == old(self).regs(), extends(*old(lambda), *lambda), (n as int) + spine(*rest) <= spine(*expr), spine(*expr) < usize::MAX,'},
+            'loops': {0: 'invariant self.regs() == old(self).regs(), self.stack_spec() == old(self).stack_spec(), extends(*old(lambda), *lambda), (n as int) + spine(*rest) <= spine(*expr), spine(*expr) < usize::MAX,'},
             'loop_count': 1,
             'body_start': 'proof { axiom_spine_fits(*expr); }',
         },
@@ -292,6 +292,8 @@ pub assume_specification [crate::vm::environment::EnvironmentMap::new] () -> (r:
                         (P, 'r is Ok && if_form(*expr) ==> if_compiled(*expr, tail, *old(lambda), *final(lambda))')],
         },
         'impl Vm::compile_quote': {'props': P, 'ensures': [REGS, EXT]},
+        # top level: compiling never touches the control state (C07: a compile error leaves the machine as it was)
+        'impl Vm::compile_runnable': {'props': P + ['C07'], 'ensures': [REGS]},
         # procedure bodies: the last body expression is compiled with the tail flag set, so a body ending in a call ends in TCALL; Ret
         'impl Vm::compile_lambda': {
             'props': P, 'attrs': NODEC + '\n#[verifier::loop_isolation(false)]',
@@ -299,7 +301,7 @@ pub assume_specification [crate::vm::environment::EnvironmentMap::new] () -> (r:
                         (P, 'r is Ok ==> ((proc_tail_expr(*expr) matches Some(e) && rt_app(e)) ==> closure_ends_in_tail_call(final(self).heap_spec(), *final(iof)))')],
             'body_start': 'proof { axiom_into_self(); }',
             'loops': {0: '''invariant
-                    self.regs() == old(self).regs(),
+                    self.regs() == old(self).regs(), self.stack_spec() == old(self).stack_spec(),
                     (*body is Pair) ==> last_tail(*body) == proc_tail_expr(*expr),
                     !(*body is Pair) ==> ((proc_tail_expr(*expr) matches Some(e) && rt_app(e)) ==> ends_in_call(lambda, true)),'''},
             'loop_count': 1,
@@ -360,6 +362,24 @@ pub open spec fn eval_datum(vm: Vm) -> Cell { heap_value(vm.heap_spec(), popped_
                 {'anchor': 'lambda.emit(OpCode::Ret);', 'where': 'after', 'text': 'let ghost inner = lambda; proof { axiom_lambda_cell(inner); }'},
                 {'anchor': 'Ok(lambda)', 'where': 'before', 'text': 'proof { if rt_app(vm_transformed(*old(vm), eval_datum(*old(vm)))) { assert(lambda_cell(inner) == heap_deref(vm.heap_spec(), lambda)); } }'},
             ],
+        },
+    },
+}, {
+    # Vm::prepare_eval (vm/mod.rs): compile, box the entry code object, point %ip at it.  A compile error leaves the control state
+    # (registers, stack) exactly as it was (C07); success only moves %ip
+    'name': 'vm_prepare',
+    'file': 'src/vm/mod.rs',
+    'uses_types': ['CellT', 'OpCodeT', 'VCell', 'Error', 'Heap', 'Lambda', 'Stack'],
+    'prelude': '',
+    'fns': {
+        'impl Vm::prepare_eval': {
+            'props': ['C07', 'C13'],
+            'ensures': [
+                (['C07'], 'final(self).stack_spec() == old(self).stack_spec()'),
+                (['C07'], 'r is Err ==> final(self).regs() == old(self).regs()'),
+                (['C13'], 'r is Ok ==> final(self).regs().0 == old(self).regs().0 && final(self).regs().2 == old(self).regs().2 && final(self).regs().1.1 == 0'),
+            ],
+            'inserts': [{'anchor': 'let lambda = self.heap.put(lambda);', 'where': 'before', 'text': 'proof { crate::vm::compile::axiom_lambda_cell(lambda); }'}],
         },
     },
 }]
